@@ -1,4 +1,6 @@
 //! verif — property-based testing / fuzzing harness for autosar-data (one sub-command per property)
+mod adoc;
+mod c01;
 mod engine;
 mod rx;
 mod spec;
@@ -19,6 +21,21 @@ fn main() {
         usage();
     }
     let id = args[1].to_uppercase();
+    if id == "GRAMMAR" {
+        // verif grammar <ELEMENT-NAME> <version index>: print the grammar of every type with that name
+        let si = spec::SpecIndex::get();
+        let vi: usize = args[3].parse().unwrap();
+        let mut seen = std::collections::HashSet::new();
+        for t in &si.types {
+            for s in &t.subs {
+                if s.name.to_str() == args[2] && seen.insert(s.tid) {
+                    println!("type #{} {:?} mode {:?} reach {:#x}", s.tid, s.etype, s.etype.content_mode(), si.types[s.tid].reach_mask);
+                    println!("{:#?}", si.grammar(s.tid, 1 << vi));
+                }
+            }
+        }
+        return;
+    }
     if id == "PROBE19" {
         // verif probe19 <pattern index> strings...
         let pats = c19::patterns();
@@ -59,12 +76,14 @@ fn main() {
                     });
                     let case = if v.get("case").is_some() { v["case"].clone() } else { v };
                     match id.as_str() {
+                        "C01" => c01::replay(&ctx, &case),
                         "C18" => c18::replay(&ctx, &case),
                         "C19" => c19::replay(&ctx, &case),
                         _ => usage(),
                     }
                 } else {
                     match id.as_str() {
+                        "C01" => c01::run(&ctx),
                         "C18" => c18::run(&ctx),
                         "C19" => c19::run(&ctx),
                         _ => usage(),
